@@ -93,6 +93,27 @@ def random_formulas(n, stream):
     return out
 
 
+def truthy_formulas(n, stream):
+    """Formulas whose operands are also bare integer variables and small arithmetic on them, as conditions are written in practice."""
+    out = []
+    for i in range(n):
+        r = env.rng(PROP, stream, i)
+        vars_ = r.choice([["x"], ["x", "y"], ["x", "y"], ["x", "y", "z"]])
+        A = atoms(vars_, range(0, 4)) + [v for v in vars_] * 12 + [f"not {v}" for v in vars_] * 6 + [f"{v} % 2" for v in vars_] * 4 + [f"{v} - 1" for v in vars_] * 2
+
+        def gen(d):
+            k = r.random()
+            if d == 0 or k < 0.3:
+                return r.choice(A)
+            if k < 0.85:
+                op = r.choice(["and", "or"])
+                return "(" + f" {op} ".join(gen(d - 1) for _ in range(r.choice([2, 2, 3]))) + ")"
+            return f"not ({gen(d - 1)})"
+
+        out.append(gen(r.choice([1, 2, 2, 3])))
+    return out
+
+
 def range_cases(thorough):
     out = []
     rng_args = []
@@ -332,6 +353,12 @@ def main() -> int:
         if "x" in f and "y" not in f and "z" not in f and k % 3 == 0:
             g = f.replace("x", "v")
             shaped.append((f"filter: {g}", SHAPES["filter"].replace("{G}", g), 1))
+    # integers used as conditions (`if x and not y:`): only where the formula is read as a truth value, never where its own value is what is returned
+    truthy = truthy_formulas(1500 if thorough else 500, "truthy")
+    names = [n for n in SHAPES if n not in ("return", "filter", "return_bool2", "assign_bool")]
+    for k, f in enumerate(truthy):
+        for sname in (names if thorough and k % 5 == 0 else [names[k % len(names)]]):
+            shaped.append((f"{sname}: {f}", SHAPES[sname].replace("{F}", f), nvars_of(f)))
     add(shaped, SHAPE_RULES)
     rcs = range_cases(thorough)
     rbodies = []
